@@ -112,3 +112,22 @@ Proof. exact encode_one_line_lemma. Qed.
 Check c10_wire : forall tag args, ~ In 13 tag -> ~ In 10 tag -> ~ In 13 args -> ~ In 10 args ->
   exists body, encode_request tag args = body ++ [13; 10] /\ ~ In 13 body /\ ~ In 10 body.
 Print Assumptions c10_wire.
+
+(* ---- every builder at once (BuilderLines.v): a command is a concatenation of pieces; for ANY typestate tables whose
+   literal pieces and keyword tables hold no CR / LF (machine_ok, a computable condition), no chain of calls -- whatever
+   the constructor, the methods, the numbers, the keywords and the text arguments -- emits a CR or LF *)
+From TI Require Import Machine BuilderLines E2EWrite.
+From TI.gen Require Import BuilderTables.
+Theorem c10_every_chain_single_line : forall m, machine_ok m = true -> forall name cargs calls out next,
+  run_chain m name cargs calls = Some (out, next) -> ~ In 13 out /\ ~ In 10 out.
+Proof. exact chain_single_line_lemma. Qed.
+Check c10_every_chain_single_line : forall m, machine_ok m = true -> forall name cargs calls out next,
+  run_chain m name cargs calls = Some (out, next) -> ~ In 13 out /\ ~ In 10 out.
+Print Assumptions c10_every_chain_single_line.
+
+(* reflection: the tables regenerated from builders/command.rs satisfy the condition *)
+Theorem c10_regenerated_tables_hold_no_line_break : machine_ok gen_machine = true.
+Proof. exact gen_machine_ok. Qed.
+Check c10_regenerated_tables_hold_no_line_break : machine_ok gen_machine = true.
+Print Assumptions c10_regenerated_tables_hold_no_line_break.
+
